@@ -273,6 +273,13 @@ def run(m: Model, r: Report, tier: str) -> None:
             f"the execute queue is bounded (maxsize={ast.unparse(qsize) if qsize is not None else 0}): `await queue.put()` in insert_scan_result can then suspend inside the "
             "finally block of ECU._request, and a cancellation arriving there loses the row of an exchange that was completed", loc=conn_fn.loc)
 
+    ep_ = m.require_function("gallia.command.base.BaseCommand.entry_point")
+    tr_run = [t for t in ast.walk(ep_.node) if isinstance(t, ast.Try) and any(isinstance(c, ast.Call) and ast.unparse(c.func) == "self.run" for b_ in t.body for c in ast.walk(b_))]
+    fin_calls = [c for c in ast.walk(ep_.node) if isinstance(c, ast.Call) and ast.unparse(c.func) == "self._db_finish_run_meta"]
+    r.check(len(tr_run) == 1 and len(fin_calls) == 1 and any(fin_calls[0] is x for st in tr_run[0].finalbody for x in ast.walk(st)), "R7",
+            f"{ep_.qualname}#drain-in-finally",
+            "the database is drained and closed (_db_finish_run_meta) outside the finally of the try around run(): when the run is cancelled, rows still queued are never written", loc=ep_.loc)
+
     # ---------------------------------------------------------------- R8
     ifs = [n for n in ast.walk(req.node) if isinstance(n, ast.If) and "ANALYZE" in ast.unparse(n.test)]
     okm = len(ifs) == 1 and "'ANALYZE' in config.tags" in ast.unparse(ifs[0].test) and \
